@@ -8,7 +8,7 @@ from .. import gen, impl, oracle, ser, stream
 
 ID = "C08"
 LEVEL = "proof"
-PROPS_MODULE = "SymmModel.Props.C08All4"
+PROPS_MODULE = "SymmModel.Props.C08All5"
 THEOREMS = [
     "SymmModel.C08.locateAll_total",
     "SymmModel.C08.toDenseA_get",
@@ -105,10 +105,25 @@ THEOREMS = [
     "SymmModel.C08.reshape_toDense_runs",
     "SymmModel.C08.fuse_forward_rel",
     "SymmModel.C08.fuse_position_injective",
-    "SymmModel.C08.fuse_position_functional"
+    "SymmModel.C08.fuse_position_functional",
+    "SymmModel.C08.transpose_dense_block",
+    "SymmModel.C08.conj_dense_block",
+    "SymmModel.C08.expandDims_dense_block",
+    "SymmModel.C08.squeeze_dense_block",
+    "SymmModel.C08.SOp_step_toDense",
+    "SymmModel.C08.SProg_toDense_commutes",
+    "SymmModel.C08.SProg_run_cons",
+    "SymmModel.C08.toDenseA_of_VEq",
+    "SymmModel.C08.reshape_mergeDrop_roundtrip_dense",
+    "SymmModel.C08.reshape_runs_roundtrip_dense",
+    "SymmModel.C08.fuse_img",
+    "SymmModel.C08.unfuse_img",
+    "SymmModel.C08.expand_img",
+    "SymmModel.C08.img_comp",
+    "SymmModel.C08.reshape_toDense_plan"
 ]
-LEAN_FILES = ["SymmModel.Props.C08", "SymmModel.Proofs.DenseLemmas", "SymmModel.Props.C08b", "SymmModel.Props.C08All", "SymmModel.Proofs.DenseMore", "SymmModel.Props.C08c", "SymmModel.Props.C08All2", "SymmModel.Proofs.Dense3a", "SymmModel.Proofs.Dense3b", "SymmModel.Proofs.Dense3d", "SymmModel.Props.C08d", "SymmModel.Props.C08All3", "SymmModel.Proofs.Dense4a", "SymmModel.Proofs.Dense4b", "SymmModel.Proofs.Dense4c", "SymmModel.Props.C08e", "SymmModel.Props.C08All4", "SymmModel.Proofs.Dense5a", "SymmModel.Proofs.Dense5f"]
-PLANNED = ["reshape at position level for plans containing unfuse or expand calls (fuse-call plans proved", "content level for every certified plan)"]
+LEAN_FILES = ["SymmModel.Props.C08", "SymmModel.Proofs.DenseLemmas", "SymmModel.Props.C08b", "SymmModel.Props.C08All", "SymmModel.Proofs.DenseMore", "SymmModel.Props.C08c", "SymmModel.Props.C08All2", "SymmModel.Proofs.Dense3a", "SymmModel.Proofs.Dense3b", "SymmModel.Proofs.Dense3d", "SymmModel.Props.C08d", "SymmModel.Props.C08All3", "SymmModel.Proofs.Dense4a", "SymmModel.Proofs.Dense4b", "SymmModel.Proofs.Dense4c", "SymmModel.Props.C08e", "SymmModel.Props.C08All4", "SymmModel.Proofs.Dense5a", "SymmModel.Proofs.Dense5f", "SymmModel.Props.C08f", "SymmModel.Props.C08All5", "SymmModel.Proofs.Dense6a", "SymmModel.Proofs.Dense6b", "SymmModel.Proofs.Dense6c", "SymmModel.Proofs.Dense6d"]
+PLANNED = []
 RULE = ("every listed operation on random abelian arrays (all symmetries, static/generic, sparse, real/complex) "
         "through method / symmray function / autoray dispatch; binary operations on operands with different stored "
         "sectors; diagonal vectors missing charges; BlockVector arithmetic and every exported elementwise function. "
